@@ -52,7 +52,8 @@ fn value_of(v: &J) -> Result<IrValue, String> {
         "BigUint" => {
             if let Some(bits) = v.get("pow2").and_then(|x| x.as_u64()) {
                 let m = v.get("minus").and_then(|x| x.as_u64()).unwrap_or(0);
-                IrValue::BigUint((BigUint::from(1u8) << (bits as usize)) - BigUint::from(m))
+                let p = v.get("plus").and_then(|x| x.as_u64()).unwrap_or(0);
+                IrValue::BigUint((BigUint::from(1u8) << (bits as usize)) - BigUint::from(m) + BigUint::from(p))
             } else {
                 IrValue::BigUint(BigUint::from(v["v"].as_u64().unwrap_or(0)))
             }
